@@ -310,6 +310,7 @@ GapTSNs(c) == IF c.gaps = <<>> THEN {}
                        ghi == MaxF({c.gaps[i][2] : i \in DOMAIN c.gaps})
                    IN {c.cum + k : k \in {j \in glo..ghi : \E i \in DOMAIN c.gaps : j >= c.gaps[i][1] /\ j <= c.gaps[i][2]}}
 
+GapSpan(c) == IF c.gaps = <<>> THEN 0 ELSE MaxF({c.gaps[i][2] : i \in DOMAIN c.gaps}) - MinF({c.gaps[i][1] : i \in DOMAIN c.gaps})
 \* t is named by one of the gap-ack blocks of SACK c (no set is built: the blocks of a garbled SACK can span 65 535 TSNs each)
 InGaps(c, t) == \E i \in DOMAIN c.gaps : t - c.cum >= c.gaps[i][1] /\ t - c.cum <= c.gaps[i][2]
 
@@ -542,7 +543,11 @@ TrRx ==
          cums  == {c.cum : c \in sacks \cup shuts}
          ncum  == IF live /\ cums # {} THEN MaxI(ackCum[to], MaxF(cums)) ELSE ackCum[to]
          \* only TSNs the sender really sent are remembered as gap-acked (nothing else is ever asked about)
-         ngap  == IF live THEN (ackGap[to] \cup UNION {{t \in GapTSNs(c) : t \in DOMAIN ch[to]} : c \in sacks}) ELSE ackGap[to]
+         \* (a SACK whose blocks span thousands of TSNs -- garbage -- is tested chunk by chunk instead of being enumerated: this
+         \* expression is re-evaluated for every chunk the definitions below look at)
+         ngap  == IF live THEN (ackGap[to] \cup UNION {IF GapSpan(c) > 2000 THEN {t \in DOMAIN ch[to] : InGaps(c, t)}
+                                                         ELSE {t \in GapTSNs(c) : t \in DOMAIN ch[to]} : c \in sacks})
+                  ELSE ackGap[to]
          newly == {t \in DOMAIN ch[to] : (t <= ncum \/ t \in ngap) /\ ~(t <= ackCum[to] \/ t \in ackGap[to])}
          inits == {c \in ChunksOfKind(p, {"init", "initack"}) : Wellformed(c)}
          \* C10: miss indications. The sender's own view of which chunks are outstanding and not abandoned is taken
